@@ -138,6 +138,9 @@ R = {
     "det_shared_state_sampler": named("det_shared_state_sampler", extra.det_shared_state,
                                       ["sample:MoleculeSampler.__init__", "sample:MoleculeSampler.sample", "sample:MoleculeSampler.add_fragment",
                                        "sample:MoleculeSampler.from_fragment_string"]),
+    "det_shared_state_layout": named("det_shared_state_layout", extra.det_shared_state, ["graph_layout:vespr_layout"], "DET.shared-state", "quick", 5),
+    "own_mutable_defaults_sampler": named("own_mutable_defaults_sampler", own.own_mutable_defaults, "quick", ("sample",), 2),
+    "null_guard_layout": tiered(keys.null_guard_layout),
     "det_shared_state_resolver": named("det_shared_state_resolver", extra.det_shared_state, prov.RESOLVER_ROOTS),
 }
 
@@ -190,19 +193,19 @@ prop("C06", ["sib_atomistic_level", "ord_resolve_handover", "sib_drivers", "ord_
      "reader and resolver use the same 'last level and last_all_atom' predicate (linear normal form); hand-over of fine graph to coarse graph, names, "
      "level dictionary, counter advanced once after last use; resolve_iter / resolve_all only delegate",
      "isomorphism with the flattened two-level string; per-step guarantees are decided under C02/C03",
-     floors={"OWN.fresh-fragment": 2, "ORD.resolve-phases": 10, "SIB.S4-atomistic-level": 4, "ORD.resolve-handover": 4, "SIB.S7-drivers": 3, "PROV.level-index": 1, "ORD.counter": 1})
+     floors={"OWN.fresh-fragment": 2, "ORD.resolve-phases": 10, "SIB.S4-atomistic-level": 4, "ORD.resolve-handover": 4, "SIB.S7-drivers": 3, "PROV.level-index": 2, "ORD.counter": 1})
 prop("C07", ["da_writer", "tab_writer_symbols", "emit_write_graph", "prov_ring_edges", "sent_order_zero", "prov_option_forwarding", "prov_after_branch_order"],
      "writer table restricted to 0..4 is the inverse of the reader's table and the documented one; per-node and per-ring emission words over all "
      "guard assignments: tree-edge symbol present iff needed and placed where the reader of that format looks (before '(' in CGsmiles, inside in "
      "OpenSMILES), ring symbol immediately before a new marker iff needed, independent of the node-format flag",
      "that the reader reconstructs the graph from a string of the documented language (C04), DFS and ring-marker allocation, more than 9 open rings",
      floors={"DA.writer": 6, "EMIT.marker-order": 1, "PROV.ring-marker": 2, "PROV.ring-edges": 5, "TAB.writer-symbols": 2, "EMIT.write_graph": 2, "SIB.S5-format-flag": 1})
-prop("C08", ["tt_layer_format", "da_writer", "emit_format_bonding", "tab_fragment_symbols", "tok_rules", "emit_write_graph", "prov_option_forwarding"],
+prop("C08", ["ring_marker_text", "tt_layer_format", "da_writer", "emit_format_bonding", "tab_fragment_symbols", "tok_rules", "emit_write_graph", "prov_option_forwarding"],
      "format_bonding only ever extends its accumulator and writes SYM? '[' descriptor[:-1] ']' per descriptor with the symbol of its own order for "
      "orders 0, 2, 3, 4; the fragment reader maps every written symbol back to its order; the tokenizer's descriptor rules incl. `is not None` for the pending order",
      "equality of the re-read fragment graphs (pysmiles writes and parses the atoms); coarse fragments are written with the fragment's name in place of "
      "each node's own name (seen while reading, outside the rules)",
-     floors={"TT.layer-format": 1, "DA.writer": 6, "EMIT.write_graph": 2, "EMIT.format_bonding": 4, "TAB.fragment-symbols": 2, "SENT.pending-order": 1, "TOK.T5-descriptor": 6})
+     floors={"TOK.ring-marker-text": 1, "TT.layer-format": 1, "DA.writer": 6, "EMIT.write_graph": 2, "EMIT.format_bonding": 4, "TAB.fragment-symbols": 2, "SENT.pending-order": 1, "TOK.T5-descriptor": 6})
 prop("C09", ["ord_resolve_phases", "ord_sample_finalise", "ord_hydrogens", "tab_copy_attrs", "prov_h_inherit", "sent_numeric_attrs", "ord_complete_loops", "own_templates_sampler", "prov_hcount_bookkeeping"],
      "every all-atom path of resolver and sampler passes the hydrogen rebuild after the last connectivity change and before renumbering; inside the rebuild: "
      "reset hcount to 0 < fill_valence(respect_hcount=False) < add_explicit_hydrogens, aromatic correction < fill; keep_bonding unused; hydrogens inherit attributes",
@@ -225,12 +228,12 @@ prop("C12", ["own_templates_resolver", "own_mutable_defaults", "det_resolver", "
      "fragment dictionaries are only accessed by key; atom names are element + position within the coarse node's atom list",
      "contiguity of blocks; determinism of pysmiles itself is assumed; shared atoms are named once per coarse node they belong to",
      floors={"DET.shared-state": 15, "OWN.templates-resolver": 10, "OWN.mutable-defaults": 8, "DET.resolver": 15, "SIB.S1-constructors": 9, "PROV.sort-key": 4, "PROV.fragdict-by-key": 2, "PROV.atom-names": 2})
-prop("C13", ["tok_rules", "tab_dialects", "tab_fragment_symbols"],
+prop("C13", ["tok_rules", "tab_dialects", "tab_fragment_symbols", "ord_parse_pipeline", "sent_annotation_value"],
      "dispatch map and per-branch effects of the tokenizer: T0 text conservation, T1 symbols set the pending order, T2 ring digits go to the previous atom "
      "and clear the pending order, T3 atoms advance (previous := counter; counter += 1) and clear it, annotations under the pre-increment index, T4 "
      "branch stack, T5 descriptor text / atom / order sources / consume, T6 slashes, and the invariant over admissible token successions",
      "anything about the cleaned text being valid SMILES; `( symbol descriptor )` leaves an empty branch",
-     floors={"TAB.fragment-symbols": 2, "TOK.T0-conservation": 3, "TOK.T1-symbol": 1, "TOK.T2-ring": 2, "TOK.T3-atom": 6, "TOK.T4-branch": 2, "TOK.T5-descriptor": 8,
+     floors={"ORD.parse-pipeline": 3, "TAB.fragment-symbols": 2, "TOK.T0-conservation": 3, "TOK.T1-symbol": 1, "TOK.T2-ring": 2, "TOK.T3-atom": 6, "TOK.T4-branch": 2, "TOK.T5-descriptor": 8,
              "TOK.T6-slash": 1, "TOK.invariant": 1, "SENT.pending-order": 1})
 prop("C14", ["tab_dialects", "ord_parse_pipeline", "prov_node_attributes", "prov_copy_complete", "exc_annotations", "prov_h_inherit", "sent_numeric_attrs", "ord_complete_loops", "sent_annotation_value", "prov_fragment_attrs"],
      "both dialect signatures, defaults, types, rename maps equal the documented table; bind < cast < defaults, cast < rename, cast keyed by name over all "
@@ -249,25 +252,25 @@ prop("C16", ["prov_sampler_setup", "da_self_attrs_sampler", "da_sampler", "tt_co
      "atom under its own descriptors, the fragment index maps a descriptor to (fragment, atom) carrying it; finalisation order",
      "connectedness / tree shape follow by induction that is not mechanised; valence completeness as C09",
      floors={"PROV.sampler-setup": 7, "DA.self-attrs": 7, "DA.sampler": 9, "TT.complement": 1, "PROV.growth-edge": 6, "PAIR.sampler-consume": 2, "PROV.open-bonds": 6, "OWN.templates-sampler": 5, "ORD.sample-finalise": 5})
-prop("C17", ["prov_sampler_setup", "da_self_attrs_sampler", "ord_complete_loops_mass", "da_sampler", "prov_stop_rule", "prov_weights", "tt_terminal_filter", "det_sampler", "ord_compute_mass", "det_shared_state_sampler"],
+prop("C17", ["own_mutable_defaults_sampler", "prov_sampler_setup", "da_self_attrs_sampler", "ord_complete_loops_mass", "da_sampler", "prov_stop_rule", "prov_weights", "tt_terminal_filter", "det_sampler", "ord_compute_mass", "det_shared_state_sampler"],
      "stop rule `sum < target` strict, sum starts at 0 and grows by the added fragment's mass on every iteration; weights are probabilities.get(b, 0) over the "
      "same sequence, unweighted draw only without table; terminal filter truth table; every draw is random.* on ordered populations, seeded on every path "
      "from the seed parameter before any draw; mass = sum over the hydrogen-completed copy",
      "statistical properties; floating point normalisation",
-     floors={"PROV.sampler-setup": 7, "DA.self-attrs": 7, "ORD.complete-loops": 1, "DA.sampler": 9, "DET.shared-state": 8, "PROV.stop-rule": 4, "PROV.weights": 3, "TT.terminal-filter": 2, "DET.sampler": 6, "ORD.compute-mass": 3})
+     floors={"OWN.mutable-defaults": 2, "PROV.sampler-setup": 7, "DA.self-attrs": 7, "ORD.complete-loops": 1, "DA.sampler": 9, "DET.shared-state": 8, "PROV.stop-rule": 4, "PROV.weights": 3, "TT.terminal-filter": 2, "DET.sampler": 6, "ORD.compute-mass": 3})
 prop("C18", ["ord_complete_loops_rdkit", "da_rdkit", "da_globals_rdkit", "key_rdkit", "norm_bead", "tab_bond_types", "prov_rdkit_attrs"],
      "no unresolved global name in rdkit.py / coordinates.py; node keys, RDKit atom indices and counters are never mixed without a map; bead position = "
      "weighted sum over the bead's own atoms / sum of those weights; bond type table; element, charge, hydrogen count and bond order are carried by both conversions",
      "everything RDKit computes (sanitisation, embedding, distances)",
      floors={"ORD.complete-loops": 7, "DA.rdkit": 5, "DA.globals": 2, "KEY.K2-rdkit": 5, "NORM.bead": 3, "TAB.bond-types": 1, "PROV.rdkit-attrs": 8})
-prop("C19", ["da_layout", "key_layout", "norm_scale", "own_mutable_defaults_layout", "own_layout_input"],
+prop("C19", ["det_shared_state_layout", "null_guard_layout", "da_layout", "key_layout", "norm_scale", "own_mutable_defaults_layout", "own_layout_input"],
      "mean bond length = sum of end-point distances over all edges / number of edges; every position multiplied by default_bond / mean; only isometries "
      "may write positions afterwards; the rescaled dict is returned",
      "finiteness, non-coincidence of bonded nodes, independence from labelling: numerical properties of networkx' optimisers",
-     floors={"DA.layout": 21, "KEY.K3-layout": 4, "OWN.layout-input": 1, "OWN.mutable-defaults": 2, "NORM.scale": 2, "ORD.scale-last": 2})
-prop("C20", ["da_resolver", "exc_dangling_ring", "sib_ring_handlers", "exc_duplicate_edge", "exc_missing_fragment", "exc_annotations", "exc_handlers", "tab_dialects"],
+     floors={"DET.shared-state": 5, "NULL.optional-param": 1, "DA.layout": 21, "KEY.K3-layout": 4, "OWN.layout-input": 1, "OWN.mutable-defaults": 2, "NORM.scale": 2, "ORD.scale-last": 2})
+prop("C20", ["ring_marker_text", "da_resolver", "exc_dangling_ring", "sib_ring_handlers", "exc_duplicate_edge", "exc_missing_fragment", "exc_annotations", "exc_handlers", "tab_dialects"],
      "each documented fault has a raise site of the documented type whose guard dominates the success exit; the open-ring table is written only by the two "
      "identical handlers; no handler between fault site and API swallows or retypes the error; numeric keys are declared float",
      "that the scanner reaches the fault wherever it is placed (C04's undecided part)",
-     floors={"DA.resolver": 37, "EXC.X1-dangling-ring": 1, "SIB.S2-ring-handlers": 3, "EXC.X2-duplicate-edge": 2, "EXC.X3-missing-fragment": 3,
+     floors={"TOK.ring-marker-text": 1, "DA.resolver": 37, "EXC.X1-dangling-ring": 1, "SIB.S2-ring-handlers": 3, "EXC.X2-duplicate-edge": 2, "EXC.X3-missing-fragment": 3,
              "EXC.X4-annotations": 6, "EXC.handlers": 8})
